@@ -38,6 +38,8 @@ struct NamePool
         snprintf(store[i], sizeof store[i], "%s", first[i]);
       else if (i % 7 == 3)
         snprintf(store[i], sizeof store[i], "a-rather-long-event-name-kept-on-the-heap-%03d", i);
+      else if (i % 7 == 5)  // names are UTF-8 text: bytes above 0x7f need no escaping in JSON and must come back as they are
+        snprintf(store[i], sizeof store[i], i % 2 ? "Gr\xc3\xb6\xc3\x9f" "e-%03d" : "\xe6\xb8\xb2\xe6\x9f\x93-%03d", i);
       else
         snprintf(store[i], sizeof store[i], "n%03d", i);
       ptr[i] = store[i];
@@ -204,8 +206,36 @@ struct Parser
           for (int i = 1; i <= 4; i++)
             if (!isxdigit((unsigned char)p[i]))
               return fail("bad \\u escape");
-          out += '?';
-          p += 4;
+          {
+            // decode to UTF-8, so that a writer that escapes non-ASCII text compares equal to one that writes it raw
+            unsigned cp = (unsigned)strtoul(std::string(p + 1, 4).c_str(), nullptr, 16);
+            p += 4;
+            if (cp >= 0xd800 && cp <= 0xdbff && end - p >= 7 && p[1] == '\\' && p[2] == 'u') {
+              bool hex = true;
+              for (int i = 3; i <= 6; i++)
+                hex &= isxdigit((unsigned char)p[i]) != 0;
+              unsigned lo = hex ? (unsigned)strtoul(std::string(p + 3, 4).c_str(), nullptr, 16) : 0;
+              if (lo >= 0xdc00 && lo <= 0xdfff) {
+                cp = 0x10000 + ((cp - 0xd800) << 10) + (lo - 0xdc00);
+                p += 6;
+              }
+            }
+            if (cp < 0x80)
+              out += (char)cp;
+            else if (cp < 0x800) {
+              out += (char)(0xc0 | cp >> 6);
+              out += (char)(0x80 | (cp & 0x3f));
+            } else if (cp < 0x10000) {
+              out += (char)(0xe0 | cp >> 12);
+              out += (char)(0x80 | (cp >> 6 & 0x3f));
+              out += (char)(0x80 | (cp & 0x3f));
+            } else {
+              out += (char)(0xf0 | cp >> 18);
+              out += (char)(0x80 | (cp >> 12 & 0x3f));
+              out += (char)(0x80 | (cp >> 6 & 0x3f));
+              out += (char)(0x80 | (cp & 0x3f));
+            }
+          }
           break;
         default: return fail("bad escape");
         }
